@@ -78,6 +78,10 @@ func main() {
 		_ = json.Unmarshal(data, &rp)
 		*prop = rp.Property
 	}
+	if *prop == "ALL" && *tier == "child" {
+		runChildAll(*repo, *overlayF)
+		return
+	}
 	check, ok := rules.Registry[*prop]
 	if !ok {
 		fmt.Printf("unknown property %q\n", *prop)
@@ -115,6 +119,9 @@ func main() {
 	prog, err := core.Load(*repo, nil)
 	if err != nil {
 		fail(err.Error())
+	}
+	for _, n := range prog.CanonNotes {
+		fmt.Printf("%s: note: %s\n", *prop, n)
 	}
 	rep := core.NewReport(prog, *prop)
 	if perr := runRules(check, prog, rep); perr != "" {
@@ -266,6 +273,62 @@ func runChild(check rules.Property, repo, overlayFile string) {
 	// its own construct, which is compared with the base run by the parent.
 	res := rep.Finish(nil)
 	out.Violations = res.Violations
+	emit()
+}
+
+// runChildAll runs every property's rules on one load of the (overlaid) program: used by the rename sweep
+// (cmd/renamesweep), which asks whether a behaviour-preserving renaming makes any check report something.
+func runChildAll(repo, overlayFile string) {
+	type allOut struct {
+		Error      string                       `json:"error,omitempty"`
+		Violations map[string][]core.Obligation `json:"violations"`
+	}
+	out := allOut{Violations: map[string][]core.Obligation{}}
+	emit := func() {
+		data, _ := json.Marshal(out)
+		fmt.Println(string(data))
+	}
+	overlay := map[string][]byte{}
+	if overlayFile != "" {
+		data, err := os.ReadFile(overlayFile)
+		if err != nil {
+			out.Error = err.Error()
+			emit()
+			return
+		}
+		var m map[string]string
+		if err := json.Unmarshal(data, &m); err != nil {
+			out.Error = err.Error()
+			emit()
+			return
+		}
+		for k, v := range m {
+			overlay[k] = []byte(v)
+		}
+	}
+	prog, err := core.Load(repo, overlay)
+	if err != nil {
+		out.Error = "load: " + err.Error()
+		emit()
+		return
+	}
+	ids := make([]string, 0, len(rules.Registry))
+	for id := range rules.Registry {
+		ids = append(ids, id)
+	}
+	sort.Strings(ids)
+	for _, id := range ids {
+		check := rules.Registry[id]
+		rep := core.NewReport(prog, id)
+		if perr := runRules(check, prog, rep); perr != "" {
+			out.Violations[id] = []core.Obligation{{Rule: id + ".panic", How: perr}}
+			continue
+		}
+		res := rep.Finish(nil)
+		if len(res.Violations) > 0 {
+			out.Violations[id] = res.Violations
+		}
+	}
 	emit()
 }
 
